@@ -178,7 +178,8 @@ class GPSData(BytesInterface):
             + f"{self.latitude:09.4f}"
             + self.east_west
             + f"{self.longitude:010.4f}"
-            + ("\0" * 3 if self.speed_knots <= 0 else f"{self.speed_knots:03}")
+            # speed is fixed 3-character field ("0.1", "9.9", "10.", "100"), must not shift direction
+            + ("\0" * 3 if self.speed_knots <= 0 else f"{self.speed_knots:03}"[:3])
             + ("\0" * 3 if not self.direction else f"{self.direction:03}")
         ).encode("ascii")
 
